@@ -646,6 +646,9 @@ def _eval_predict(case):
 
     # ---- class labels from the input
     res.cls(f"paf={case['paf']['kind']}", f"layout={case.get('layout', '?')}", f"batch={B}", f"min_peaks={mip_kind}")
+    res.cls(f"{case.get('layout', '?')}|{case['paf']['kind']}")
+    if case.get("same_counts"):
+        res.cls("frames-with-equal-peak-counts")
     n_pk = [len(f["chan"]) for f in frames]
     if B > 1 and any(n == 0 for n in n_pk) and any(n > 0 for n in n_pk):
         res.cls("empty-frame-inside-batch")
@@ -958,21 +961,37 @@ def _strategies():
         stride = draw(st.sampled_from([1, 2, 2, 4, 8]))
         H, W = draw(st.integers(2, 7)), draw(st.integers(2, 7))
         B = draw(st.sampled_from([1, 2, 2, 3]))
-        layout = draw(st.sampled_from(["lattice", "lattice", "float", "animals", "animals"]))
-        paf_kind = draw(st.sampled_from(["zeros", "const", "random", "random", "ideal", "ideal"]))
+        # one choice for the pair, so every layout x field combination is drawn
+        layout, paf_kind = draw(
+            st.sampled_from(
+                [
+                    (lay, pk)
+                    for lay in ["lattice", "lattice", "float", "animals", "animals"]
+                    for pk in ["zeros", "const", "random", "random", "ideal", "ideal"]
+                ]
+            )
+        )
         frame_kinds = [draw(st.sampled_from(["dense", "dense", "sparse", "empty-node", "empty"])) for _ in range(B)]
         if B > 1 and draw(st.integers(0, 3)) == 0:
             frame_kinds[draw(st.integers(0, B - 1))] = "empty"
+        # frames with the same number of peaks per node type: a mix-up between batch
+        # entries then goes unnoticed by shapes and has to show in the grouping
+        same_counts = B > 1 and draw(st.integers(0, 2)) == 0
+        shared = None
         frames = []
         for fk in frame_kinds:
             if fk == "empty":
                 counts = [0] * n_nodes
+            elif same_counts and shared is not None:
+                counts = list(shared)
             elif fk == "dense":
                 counts = [draw(st.integers(2, 4 if n_nodes <= 3 else 3)) for _ in range(n_nodes)]
             else:
                 counts = [draw(st.integers(0, 3)) for _ in range(n_nodes)]
                 if fk == "empty-node":
                     counts[draw(st.integers(0, n_nodes - 1))] = 0
+            if fk != "empty" and shared is None:
+                shared = list(counts)
             n_tot = sum(counts)
             order = list(draw(st.permutations(list(range(n_tot)))))
             # peaks listed node by node, rank by rank; `order` shuffles them afterwards
@@ -1051,6 +1070,7 @@ def _strategies():
             "H": H,
             "W": W,
             "layout": layout,
+            "same_counts": bool(same_counts),
             "frames": frames,
             "paf": paf,
             "params": params,
